@@ -293,6 +293,38 @@ Proof.
   destruct (node_lookup i (gc_pid c)) as [[|]| | |]; try reflexivity. contradiction.
 Qed.
 
+(* Strict reading of "the provider no longer lists its instance": the instance does not occur in
+   cloudProvider.List at all. The code filters the listing by DeletionTimestamp.IsZero(), so an
+   instance that is listed as terminating counts as not listed. *)
+Definition terminating_input : gc_in :=
+  mkGc (Some [mkGClaim "a" true true false "p1" AOk]) (Some [mkGInst "p1" true]) [] [].
+
+Lemma gc_strict_unlisted_refuted_l :
+  exists i ps c, g_provider i = Some ps /\ g_claims i = Some [c] /\
+    In (gc_name c) (fst (gc i)) /\ In (gc_pid c) (map gi_pid ps).
+Proof.
+  exists terminating_input, [mkGInst "p1" true], (mkGClaim "a" true true false "p1" AOk).
+  vm_compute. repeat split; auto.
+Qed.
+
+Lemma live_ids_all ps : (forall p, In p ps -> gi_deleting p = false) -> live_ids ps = map gi_pid ps.
+Proof.
+  unfold live_ids. induction ps as [|p ps IH]; intros H; simpl; [reflexivity|].
+  rewrite (H p (or_introl eq_refl)). simpl. f_equal. apply IH. intros q Hq. apply H. right. exact Hq.
+Qed.
+
+Lemma gc_strict_unlisted_partial_l i ps name :
+  g_provider i = Some ps -> (forall p, In p ps -> gi_deleting p = false) ->
+  In name (fst (gc i)) ->
+  exists cs c, g_claims i = Some cs /\ In c cs /\ gc_name c = name /\ ~ In (gc_pid c) (map gi_pid ps).
+Proof.
+  intros Hp Hall Hin.
+  destruct (g_claims i) as [cs|] eqn:Hc; [|rewrite (gc_failed_lists_l i (or_introl Hc)) in Hin; inversion Hin].
+  destruct (gc_deleted_inv i cs ps name Hc Hp Hin) as (c & Hin' & Hn & Hcand & _).
+  apply gc_candidate_spec in Hcand. destruct Hcand as (_ & _ & _ & Hnl).
+  rewrite (live_ids_all ps Hall) in Hnl. exists cs, c. repeat split; assumption.
+Qed.
+
 (* ------------------------------------------------------------------ liveness *)
 
 Definition lv_holds (i : lv_in) (deletes : nat) : Prop :=
